@@ -306,6 +306,34 @@ func c04Store(st *backends.Stack, key string, body []byte) *s3x.Resp {
 	return s3x.Do(st.Handler, &s3x.Req{Method: "PUT", Path: "/bk0/" + key, Header: s3x.H("X-Amz-Copy-Source", "/bk1/copy-source")})
 }
 
+// c04BinaryKeys: the V2 walk over a bucket whose keys include bytes that are not UTF-8.
+func c04BinaryKeys(cs c04Case) (wd []disc, pages, want int) {
+	st := backends.Must(backends.Mem, backends.Options{})
+	defer st.Close()
+	ensureBucket(st, "bk0")
+	ks := []string{"a", "b\xffa", "b\xffb", "c\xc3\x28", "c\xc3\x28d", "d", "e\x80/x", "e\x80/y"}
+	for _, k := range ks {
+		if r := put(st, "bk0", k, c03Body("x")); r.Status != 200 {
+			panic("harness: " + r.String())
+		}
+	}
+	want = len(ks)
+	if cs.Delim == "/" {
+		want = len(ks) - 1 // e\x80/x and e\x80/y roll up
+	}
+	got, pages, wd := c04Walk(st, cs, want)
+	var keep []disc
+	for _, d := range wd {
+		if d.Kind != "page-order" { // the order of the U+FFFD spellings means nothing
+			keep = append(keep, d)
+		}
+	}
+	if len(keep) == 0 && len(got) != want {
+		keep = dsc("binary-keys-count", "the V2 walk over %d entries (keys with bytes that are not UTF-8, delimiter %q, max-keys %d) visited %d in %d pages", want, cs.Delim, cs.MaxKeys, len(got), pages)
+	}
+	return keep, pages, want
+}
+
 func c04Replay(check string, raw json.RawMessage) ([]disc, error) {
 	var cs c04Case
 	if err := json.Unmarshal(raw, &cs); err != nil {
@@ -330,6 +358,10 @@ func c04Replay(check string, raw json.RawMessage) ([]disc, error) {
 	}
 	if check == "fallback" {
 		return c04Fallback(st, cs), nil
+	}
+	if check == "walk-binary-keys" {
+		wd, _, _ := c04BinaryKeys(cs)
+		return wd, nil
 	}
 	ds, _, _, _ := c04Check(st, cs)
 	return ds, nil
@@ -513,6 +545,19 @@ func c04Run(t *testing.T, c *evid.Collector) {
 			}
 		}
 		st.Close()
+	}
+
+	// ---- keys that are not valid UTF-8: the XML listing cannot spell them (they arrive as U+FFFD), so
+	// what is compared is what a token-following client can see - the V2 walk terminates and visits as
+	// many entries as there are keys, none twice in a row
+	if evid.Shard() == 0 {
+		for _, d := range []string{"", "/"} {
+			for _, mk := range []int{1, 2, 3} {
+				cs := c04Case{Backend: backends.Mem, Keys: []string{"(8 keys, four of them not valid UTF-8)"}, Delim: d, MaxKeys: mk, API: "v2"}
+				wd, pages, want := c04BinaryKeys(cs)
+				record("walk-binary-keys", cs, wd, pages, want, false, "binary-keys")
+			}
+		}
 	}
 
 	// ---- random larger buckets on mem, with delete markers
